@@ -535,6 +535,41 @@ class _Module:
         fall, rets = block(self.methods[fname].body, set())
         return meet([fall] + rets) or set()
 
+    def recorded_version_expr(self, val: ast.AST, line: int, where: str) -> bool:
+        """Is the value stored into a lump's header version the number the READER recorded for this object, i.e.
+        `self.static_prop_version.version` (the reader sets static_prop_version from the header number of the file through
+        a table keyed by that number)?  A local name counts when EVERY assignment to it that precedes the store in the
+        function is that expression."""
+        def recorded(e: ast.AST) -> bool:
+            return isinstance(e, ast.Attribute) and e.attr == 'version' and _is_self_attr(e.value) and e.value.attr == 'static_prop_version'
+        if recorded(val):
+            return True
+        fname = where.rsplit('BSP.', 1)[-1].split(':')[0]
+        fn = self.methods.get(fname)
+        if isinstance(val, ast.Name) and fn is not None:
+            defs = [st.value for st in ast.walk(fn) if isinstance(st, ast.Assign) and st.lineno < line
+                    and any(isinstance(t, ast.Name) and t.id == val.id for t in st.targets)]
+            others = [st for st in ast.walk(fn) if isinstance(st, (ast.AugAssign, ast.AnnAssign, ast.For, ast.NamedExpr)) and st.lineno < line
+                      and any(isinstance(x, ast.Name) and x.id == val.id and isinstance(x.ctx, ast.Store) for x in ast.walk(st))]
+            return bool(defs) and not others and all(recorded(d) for d in defs)
+        return False
+
+    def version_table_keyed_by_header_number(self) -> bool:
+        """`_STATIC_PROP_VERSIONS = {(ver.version, ver.size): ver for ver in StaticPropVersion ...}`: the version the reader
+        looks up under the header number of the file has that number as its `.version`."""
+        for n in self.tree.body:
+            tg = n.targets[0] if isinstance(n, ast.Assign) and len(n.targets) == 1 else n.target if isinstance(n, ast.AnnAssign) else None
+            if isinstance(tg, ast.Name) and tg.id == '_STATIC_PROP_VERSIONS':
+                d = n.value
+                if isinstance(d, ast.DictComp) and len(d.generators) == 1 and isinstance(d.generators[0].target, ast.Name):
+                    var = d.generators[0].target.id
+                    k = d.key
+                    return bool(isinstance(d.value, ast.Name) and d.value.id == var and isinstance(k, ast.Tuple) and k.elts
+                                and isinstance(k.elts[0], ast.Attribute) and k.elts[0].attr == 'version'
+                                and isinstance(k.elts[0].value, ast.Name) and k.elts[0].value.id == var)
+                return False
+        return False
+
     def lump_num(self, key: str) -> int:
         if key.startswith('L:'):
             return self.lump_vals[key[2:]]
@@ -678,6 +713,11 @@ class _Module:
                         raise TranslateError(f'{where}:{n.lineno}: del of lump data')
                 elif n.attr in ('version', 'flags', 'is_compressed', 'type', 'id') and isinstance(n.ctx, ast.Load):
                     pass
+                elif n.attr == 'version' and isinstance(n.ctx, ast.Store) and isinstance(par.get(id(n)), ast.Assign) \
+                        and len(par[id(n)].targets) == 1 and par[id(n)].targets[0] is n:
+                    # the header version of a lump set by a reader / writer: given a meaning by the caller (a cell of the file
+                    # that no look clears; a look + save must leave it equal)
+                    out.setdefault('version_stores', []).append((key, par[id(n)].value, n.lineno, ctx, where))
                 else:
                     raise TranslateError(f'{where}:{n.lineno}: unrecognised use of a lump object: {ast.unparse(n)}')
         for n in ast.walk(node):
@@ -1246,8 +1286,13 @@ def _save_shape(m: '_Module') -> dict:
         for n in pop_nodes:
             if isinstance(n, ast.Delete) and not all(isinstance(t, ast.Subscript) and isinstance(t.slice, ast.Name) and t.slice.id == var for t in n.targets):
                 raise TranslateError(f'{where}:{n.lineno}: del of something other than the loop variable\'s cache entry')
-        if not reads or min(reads) > calls[0] or not store_lines or min(pops) < max(store_lines) or any(id(n) in in_handlers for n in pop_nodes) \
-                or any(isinstance(t, ast.Try) and any(id(x) in {id(y) for y in ast.walk(t)} for x in pop_nodes) for t in ast.walk(loop)):
+        res_names = {st.targets[0].id for st in ast.walk(loop) if isinstance(st, ast.Assign) and len(st.targets) == 1 and isinstance(st.targets[0], ast.Name)
+                     and isinstance(st.value, ast.Call) and isinstance(st.value.func, ast.Subscript) and mentions(st.value.func.value, '_save_funcs')}
+        res_uses = [x.lineno for x in ast.walk(loop) if isinstance(x, ast.Name) and x.id in res_names and isinstance(x.ctx, ast.Load)]
+        # everything that can raise because of the writer (the call, the consumption of a generator result) precedes the del
+        if not reads or min(reads) > calls[0] or not store_lines or not res_names or min(pops) < max(res_uses + [calls[0]]) \
+                or any(id(n) in in_handlers for n in pop_nodes) \
+                or any(isinstance(t, ast.Try) and any(id(x) in {id(y) for b in t.body for y in ast.walk(b)} for x in pop_nodes) for t in ast.walk(loop)):
             raise TranslateError(f'{where}:{loop.lineno}: the view is popped after its writer ran (not the modelled order)')
         pops_late = True
     if set(stores) != {'lumps', 'game_lumps'}:
@@ -1416,6 +1461,7 @@ def translate() -> tuple[str, dict]:
     side_views = {}
     view_uses: list[tuple[str, int, int, str, int]] = []
     reader_stores: list[tuple[int, int, int]] = []
+    version_stores: list[tuple[int, int, bool, int]] = []
     elem_muts: list[tuple[str, int, int, int, bool]] = []
     for i, v in enumerate(view_at):
         if v is None:
@@ -1444,6 +1490,10 @@ def translate() -> tuple[str, dict]:
                 cond_stores.append((i, num, ' & '.join(ctx)))
         for key, _, line in rd['stores']:
             reader_stores.append((i, m.lump_num(key), line))
+        if rd.get('version_stores'):
+            raise TranslateError(f'reader of {v} sets the header version of a lump: line {rd["version_stores"][0][2]}')
+        for key, val, line, ctx, wh in wr.get('version_stores', []):
+            version_stores.append((i, m.lump_num(key), m.recorded_version_expr(val, line, wh), line))
         for key in list(rd['raw_reads']) + list(wr['raw_reads']):
             raw_reads.append((i, m.lump_num(key)))
         for who, eff in (('reader', rd), ('writer', wr)):
@@ -1525,6 +1575,9 @@ def translate() -> tuple[str, dict]:
         'Definition bsp_container_formats : list string := [' + '; '.join(f'"{x}"' for x in lay['formats']) + '].',
         '(* lump data stored by a READER (a reader that empties a lump itself does so before __get__ has cached the value) *)',
         'Definition bsp_reader_stores : list (nat * nat) := [' + '; '.join(f'({a}, {b})' for a, b, _ in sorted(set(reader_stores))) + '].',
+        '(* header versions of lumps set by writers: (view, lump, is the value the number the reader recorded: self.static_prop_version.version) *)',
+        'Definition bsp_version_stores : list (nat * nat * bool) := [' + '; '.join(f'({a}, {b}, {cb(r)})' for a, b, r, _ in sorted(set(version_stores))) + '].',
+        f'Definition bsp_version_table_keyed_by_header_number : bool := {cb(m.version_table_keyed_by_header_number())}.',
         '(* how readers / writers use the views they look at: (view, used view, 0 read | 1 append | 2 mutate | 3 escape) *)',
         'Definition bsp_reader_uses : list (nat * nat * nat) := ' + uses('reader') + '.',
         'Definition bsp_writer_uses : list (nat * nat * nat) := ' + uses('writer') + '.',
@@ -1538,6 +1591,7 @@ def translate() -> tuple[str, dict]:
     side = {
         'get_shape': gshape, 'save_shape': sshape, 'container_layout': lay,
         'reader_stores': [[view_at[a], names[b], ln] for a, b, ln in sorted(set(reader_stores))],
+        'version_stores': [[view_at[a], names[b], r, ln] for a, b, r, ln in sorted(set(version_stores))],
         'view_uses': [[w, view_at[a], (view_at[b] if b < len(view_at) else '?'), k, ln] for w, a, b, k, ln in sorted(set(view_uses))],
         'elem_mutations': [[w, view_at[a], (view_at[b] if b < len(view_at) else '?'), ln, 'last' if late else 'early']
                            for w, a, b, ln, late in sorted(set(elem_muts))],
